@@ -105,7 +105,19 @@ fn gen_ty(src: &mut Src, a: &mut Alloc, depth: usize, arity: Option<usize>) -> T
         return gen_leaf(src, a);
     }
     let n = arity.unwrap_or_else(|| 1 + src.pick(if depth == 0 { 8 } else { 4 }));
-    let members: Vec<Ty> = (0..n).map(|_| gen_ty(src, a, depth + 1, None)).collect();
+    let mut members: Vec<Ty> = vec![];
+    while members.len() < n {
+        let m = gen_ty(src, a, depth + 1, None);
+        // now and then the very same read-like member twice in a row (same resource, same accessor
+        // kind, same custom handler)
+        let twice = matches!(m, Ty::Read(_) | Ty::ReadExpect(_) | Ty::ReadH(..) | Ty::OptRead(_))
+            && members.len() + 2 <= n
+            && src.chance(2, 16);
+        if twice {
+            members.push(m.clone());
+        }
+        members.push(m);
+    }
     if arity.is_some() {
         return Ty::Tuple(members);
     }
